@@ -67,6 +67,7 @@ pub(crate) fn expand_by_wrapper(
                 if prefix_index > 0 || found_prefix {
                     push_prefix(&mut value_string, single_type, found_prefix);
                     prefix_index = 0;
+                    single_type = true;
                 }
                 value_string.push(next_char);
             }
